@@ -51,7 +51,18 @@ _INC_RE = re.compile(r"include\s*(['\"])(.*?)\1\s*$", re.I)
 def render_items(items, st, names):
     out = []
     for kind, k in items:
-        out.append(st[k].line("") if kind == "s" else INCLUDE_SPELLINGS[k % len(INCLUDE_SPELLINGS)] % names[k])
+        if kind == "s":
+            line = st[k].line("")
+            cut = line.find(", ")
+            if k % 2 == 0 and cut > 0 and line[:5].lower() in ("call ", "commo", "chara") and "'" not in line and '"' not in line:
+                # a continued statement that starts in column one with a 'c': its trailing '&' is the only
+                # free-form evidence of the file it ends up in
+                out.append(line[:cut + 2] + "&")
+                out.append("&" + line[cut + 2:])
+            else:
+                out.append(line)
+        else:
+            out.append(INCLUDE_SPELLINGS[k % len(INCLUDE_SPELLINGS)] % names[k])
     return "\n".join(out) + "\n"
 
 
@@ -188,6 +199,25 @@ def run(ctx):
                              dict(main=FRAG_PROBE[0], file=FRAG_PROBE[1])))
     finally:
         shutil.rmtree(d, ignore_errors=True)
+    # include files whose only free-form evidence is the trailing '&' of a statement that starts in column one with
+    # c / C / * / a tab (every other line looks like a fixed-form comment or statement)
+    for tag, body in (("call", "call subOne(xPos, &\n&yVal)\ncontinue\ncall subTwo\n"),
+                      ("common", "COMMON /cmnBlk/ cmA, &\n  &cmB\n      real :: zLoc\n"),
+                      ("character", "character(len = 8) :: cOne, &\n         cTwo\n"),
+                      ("tab", "\txPos = 1.0 + &\n\t  2.0\n")):
+        main = "program progMain\nreal :: xPos, yVal\ninclude 'crafted.inc'\nend program progMain\n"
+        inl = main.replace("include 'crafted.inc'\n", body)
+        d = tempfile.mkdtemp(prefix="verif_c13_c_")
+        try:
+            with open(os.path.join(d, "crafted.inc"), "w") as fh:
+                fh.write(body)
+            o = fp.parse(main, std="f2003", rd=fp.FortranStringReader(main, include_dirs=[d]))
+            ref = fp.parse(inl, std="f2003")
+            if ref.kind == "tree" and (o.kind != "tree" or fp.canon_repr(o.tree) != fp.canon_repr(ref.tree)):
+                failures.append(("include_with_trailing_ampersand_evidence:" + tag,
+                                 "main + include: %s, inlined text: tree" % o.kind, dict(main=main, file=body, crafted=tag)))
+        finally:
+            shutil.rmtree(d, ignore_errors=True)
     corr = dict(cases=ncorr, distinct=ncorr, disagreements=dis, skipped_outside_hypothesis=skipped,
                 samples=[dict(job=list(jobs[0]))])
     e2e = dict(cases=len(jobs) + 1, distinct=len(set(jobs)), failures=[f for f in failures if f[0] != "reader_stream_differs"],
@@ -206,5 +236,7 @@ def run(ctx):
 
 
 def replay(ctx, data):
+    if "job" not in data:
+        return False          # crafted probes are re-run by the check itself
     r = check_one(tuple(data["job"]))
     return not r["fails"]
